@@ -100,7 +100,7 @@ func Read(r io.Reader, opts ...wkbcommon.WKBOption) (geom.T, error) {
 		if err != nil {
 			return nil, err
 		}
-		if limit := wkbcommon.MaxGeometryElements[1]; limit >= 0 && int(n) > limit {
+		if limit := wkbcommon.MaxGeometryElements[1]; limit >= 0 && uint64(n) > uint64(limit) {
 			return nil, wkbcommon.ErrGeometryTooLarge{Level: 1, N: int(n), Limit: limit}
 		}
 		mp := geom.NewMultiPoint(layout)
@@ -123,7 +123,7 @@ func Read(r io.Reader, opts ...wkbcommon.WKBOption) (geom.T, error) {
 		if err != nil {
 			return nil, err
 		}
-		if limit := wkbcommon.MaxGeometryElements[2]; limit >= 0 && int(n) > limit {
+		if limit := wkbcommon.MaxGeometryElements[2]; limit >= 0 && uint64(n) > uint64(limit) {
 			return nil, wkbcommon.ErrGeometryTooLarge{Level: 2, N: int(n), Limit: limit}
 		}
 		mls := geom.NewMultiLineString(layout)
@@ -146,7 +146,7 @@ func Read(r io.Reader, opts ...wkbcommon.WKBOption) (geom.T, error) {
 		if err != nil {
 			return nil, err
 		}
-		if limit := wkbcommon.MaxGeometryElements[3]; limit >= 0 && int(n) > limit {
+		if limit := wkbcommon.MaxGeometryElements[3]; limit >= 0 && uint64(n) > uint64(limit) {
 			return nil, wkbcommon.ErrGeometryTooLarge{Level: 3, N: int(n), Limit: limit}
 		}
 		mp := geom.NewMultiPolygon(layout)
@@ -169,7 +169,7 @@ func Read(r io.Reader, opts ...wkbcommon.WKBOption) (geom.T, error) {
 		if err != nil {
 			return nil, err
 		}
-		if limit := wkbcommon.MaxGeometryElements[1]; limit >= 0 && int(n) > limit {
+		if limit := wkbcommon.MaxGeometryElements[1]; limit >= 0 && uint64(n) > uint64(limit) {
 			return nil, wkbcommon.ErrGeometryTooLarge{Level: 1, N: int(n), Limit: limit}
 		}
 		gc := geom.NewGeometryCollection()
